@@ -197,3 +197,16 @@ Definition lgen (embedded : bool) (d : ldoc) : list string * ldoc :=
 (** which of the names [watch] each of n generations from one loaded document declares locally *)
 Definition declared_of (embedded : bool) (d : ldoc) (watch : list string) (n : nat) : list (list string) :=
   map (fun o => filter (has o) watch) (outputs (lgen embedded) n d).
+
+(** * The ErrorOnly shape: the loop body computes something from the entry, merges it into an accumulator, and the only
+      way out besides falling through is returning the entry's error (GoSchemaImports, GetSchemaImports, ...). *)
+Inductive res (A E : Type) := ROk (a : A) | RErr (e : E).
+Arguments ROk {A E} a.
+Arguments RErr {A E} e.
+Fixpoint error_only {K V A E} (f : K -> V -> res A E) (merge : A -> A -> A) (l : list (K * V)) (acc : A) : res A E :=
+  match l with
+  | [] => ROk acc
+  | (k, v) :: r => match f k v with RErr e => RErr e | ROk x => error_only f merge r (merge acc x) end
+  end.
+Definition fails {K V A E} (f : K -> V -> res A E) (kv : K * V) : bool :=
+  match f (fst kv) (snd kv) with RErr _ => true | ROk _ => false end.
